@@ -50,7 +50,7 @@ def required_cells(tier):
             "dangling:same-name-two-dirs", "dangling:same-name-both-forms", "dangling:site-reached-by-2+-commands",
             "unknown-directive:live", "unknown-directive:dead", "benign-directive:dead", "db:missing-file", "db:unknown-compiler",
             "db:unknown-flags", "control:no-warnings", "totals-compared", "memo:failure-then-success-elsewhere",
-            "db:unknown-flags>80-characters", "dangling:below-depth>=64", "db:unknown-implicit-option-from-user-configuration"]
+            "db:unknown-flags>80-characters", "dangling:below-depth>=64", "db:unknown-implicit-option-from-user-configuration", "header-is-a-compile-command", "log-file-cannot-be-created:refused"]
 
 
 def is_dangling(name):
@@ -348,6 +348,13 @@ def check_case(ctx, case, base, cls, via_cli, rng):
         acc.excluded("gcc-rejects-probe-twin", cls=cls)
         return
     cells = set(exp["cells"])
+    if any(tu["file"].endswith(".h") for tu in case["tus"]):
+        cells.add("header-is-a-compile-command")
+    # one command-line case in 8 runs where the log file cannot be created (cbi.log is a directory): the tool may refuse to
+    # run, but if it runs, its totals are judged like any other run's
+    blocked_log = via_cli and rng.random() < 0.12
+    if blocked_log:
+        os.makedirs(os.path.join(root, "cbi.log"), exist_ok=True)
     implicit_unknown = via_cli and cls != "control" and rng.random() < 0.35
     toml, db_expect = write_databases(case, base, rng, extras=(cls != "control"), implicit_unknown=implicit_unknown)
     if implicit_unknown and any("-fmystery-option=7" in k for k in db_expect.names["unknown-flags"]):
@@ -373,6 +380,11 @@ def check_case(ctx, case, base, cls, via_cli, rng):
                 cells.add("verbosity:" + verb[0])
             rc, out, err = cli.run("codebasin", verb + ["-R", "summary", toml], root, launch={"dump": dump})
             acc.hook("cli-runs")
+            if rc != 0 and blocked_log:
+                acc.held(cells={"log-file-cannot-be-created:refused"}, cls=cls)
+                return
+            if blocked_log:
+                cells.add("log-file-cannot-be-created:ran")
             if rc != 0:
                 problems.append({"kind": "cli failed", "rc": rc, "stdout": out[-400:], "stderr": err[-400:]})
                 warnings = []
@@ -453,6 +465,14 @@ def run_shard(ctx):
             tu["search"] = [["I", d] for _, d in tu["search"]]
         if not control:
             inject_directives(rng, case)
+        if i % 4 == 1:
+            # a header that is also a compile command of its own (precompiled header): everything it cannot honour is
+            # reported for that command too
+            hs = sorted(r for r, b_ in case["files"].items() if r.endswith(".h") and not r.startswith("@") and "'once'" not in str(b_)
+                        and os.path.basename(r) not in ("pre.h", "rep.h", "dispatch.h"))
+            if hs:
+                h = hs[i % len(hs)]
+                case["tus"].append(dict(case["tus"][0], file=h, includes=[]))
         crng_seed = rng.random()
         if ctx.mine(i):
             import random as _r
